@@ -14,7 +14,25 @@ NA = {
  "C15": "as_minimization_problem and best-sample selection are pure; candidates are iterated through ordered sets, so even ties are deterministic",
  "C16": "interval arithmetic is pure",
 }
-CHECKS = json.load(open(os.path.join(os.path.dirname(__file__), "checks.json"))) if os.path.exists(os.path.join(os.path.dirname(__file__), "checks.json")) else []
+def chk(pid, level, text, note, technique, design_ref):
+    return {
+      "property_id": pid,
+      "quick_cmd": f"./check {pid} --tier quick",
+      "thorough_cmd": f"./check {pid} --tier thorough",
+      "evidence_file": f"/verif/evidence/{pid}.json",
+      "replay_cmd_template": f"./check {pid} --replay {{path}}",
+      "engine": "ommx-dst",
+      "level_claimed": {"category": level, "text": text, "design_ref": design_ref},
+      "level_note": note,
+      "technique": technique,
+    }
+CHECKS = [
+ chk("C18", "exploration",
+     "seeded search over (instance, write-side fault plan, read-side fault plan, chunking, hash seed): mps::write_file on a simulated disk (ENOSPC after a byte budget, EIO, EINTR, short writes, open failure), then mps::load_file fault-free ('acknowledged => complete and equal') and under read faults ('Err or equal'); nonlinear instances must be refused naming the offender. Sampling, not proof; every failure is shrunk and replayable.",
+     "trusts: libc interposition reaching every file I/O entry point used (syscall counters in evidence), tmpfs as the disk, the reference normal form in sim/src/model/lp.rs; domains compared as sets",
+     "deterministic simulation with fault injection (simulated disk via libc interposition, seeded fault plans, reference-model oracle, shrinking + replay)",
+     "DESIGN.md section 3 C18"),
+]
 m = {
  "version": 1,
  "setup_cmd": "./check --build",
